@@ -1,9 +1,374 @@
 package main
 
 // Structural obligations: decided by CFG / use-def analyses over the SSA
-// form rather than by an SMT solver (encapsulation of owned fields, package
-// variables written only by init, join-before-return, lock discipline ...).
+// form of the whole repository rather than by an SMT solver.
+//
+//   globals-init-only  a package variable named in a `global` clause is stored
+//                      only by its package initialiser; a map held in it is
+//                      only read elsewhere
+//   encapsulated       an `owned` field's backing array never leaves its type
+//   (more kinds are added by the pipeline properties: see pipeline.go)
+
+import (
+	"fmt"
+	"go/ast"
+	"go/types"
+	"sort"
+	"strings"
+
+	"golang.org/x/tools/go/ssa"
+)
+
+func (e *Engine) repoFunctions() []*ssa.Function {
+	var out []*ssa.Function
+	for k, fn := range e.fnByKey {
+		_ = k
+		if fn.Blocks == nil {
+			continue
+		}
+		if e.inRepoStrict(fn) {
+			out = append(out, fn)
+		}
+	}
+	sort.Slice(out, func(i, j int) bool { return out[i].String() < out[j].String() })
+	return out
+}
+
+func (e *Engine) inRepoStrict(fn *ssa.Function) bool {
+	p := fn.Pkg
+	if p == nil && fn.Parent() != nil {
+		p = fn.Parent().Pkg
+	}
+	if p == nil && fn.Origin() != nil {
+		p = fn.Origin().Pkg
+	}
+	return p != nil && strings.HasPrefix(p.Pkg.Path(), e.modPath)
+}
+
+func structOblig(name, kind, clause string, props []string, problems []string) *Oblig {
+	o := &Oblig{Name: name, Kind: kind, Fn: "whole-program", Clause: clause, Props: props, Structural: true, Solver: "ssa-analysis"}
+	if len(problems) == 0 {
+		o.Result = "ok"
+	} else {
+		o.Result = "violated"
+		o.Model = strings.Join(problems, "\n")
+		o.Detail = problems[0]
+	}
+	return o
+}
+
+func isInitFn(fn *ssa.Function) bool {
+	return fn.Name() == "init" || strings.HasPrefix(fn.Name(), "init#")
+}
+
+// identsOf collects identifier names in an expression.
+func identsOf(x ast.Expr) []string {
+	var out []string
+	ast.Inspect(x, func(n ast.Node) bool {
+		if id, ok := n.(*ast.Ident); ok {
+			out = append(out, id.Name)
+		}
+		return true
+	})
+	return out
+}
+
+func (e *Engine) pos(ins ssa.Instruction) string {
+	p := e.prog.Fset.Position(ins.Pos())
+	if !p.IsValid() {
+		return ins.Parent().String()
+	}
+	return fmt.Sprintf("%s:%d", shortPath(p.Filename), p.Line)
+}
+
+func (e *Engine) globalsInitOnly(prop string) []*Oblig {
+	var out []*Oblig
+	seen := map[*ssa.Global]bool{}
+	probe := &Unit{prop: prop}
+	for _, g := range e.lib.Globals {
+		if !probe.active(g.Clause.Props) || len(g.Clause.Props) == 0 {
+			continue
+		}
+		pkg := e.ssaPkgs[g.Pkg]
+		if pkg == nil {
+			continue
+		}
+		for _, name := range identsOf(g.Clause.Expr) {
+			gv, ok := pkg.Members[name].(*ssa.Global)
+			if !ok || seen[gv] {
+				continue
+			}
+			seen[gv] = true
+			var problems []string
+			for _, fn := range e.repoFunctions() {
+				inInit := fn.Pkg == pkg && isInitFn(fn)
+				for _, b := range fn.Blocks {
+					for _, ins := range b.Instrs {
+						switch x := ins.(type) {
+						case *ssa.Store:
+							if root := addrRoot(x.Addr); root == gv && !inInit {
+								problems = append(problems, fmt.Sprintf("%s: package variable %s is written outside its package initialiser", e.pos(ins), name))
+							}
+						case *ssa.UnOp:
+							if x.X == gv && !inInit {
+								// value loaded from the variable: only read-only uses allowed
+								for _, ref := range *x.Referrers() {
+									if !readOnlyUse(ref, x) {
+										problems = append(problems, fmt.Sprintf("%s: value of package variable %s escapes or is modified (%T)", e.pos(ref), name, ref))
+									}
+								}
+							}
+						}
+						// address of the variable taken as a value
+						if !inInit {
+							for _, op := range ins.Operands(nil) {
+								if *op == gv {
+									switch y := ins.(type) {
+									case *ssa.Store:
+										if y.Addr != gv {
+											problems = append(problems, fmt.Sprintf("%s: address of %s stored", e.pos(ins), name))
+										}
+									case *ssa.UnOp, *ssa.DebugRef:
+									default:
+										problems = append(problems, fmt.Sprintf("%s: address of package variable %s escapes (%T)", e.pos(ins), name, ins))
+									}
+								}
+							}
+						}
+					}
+				}
+			}
+			out = append(out, structOblig("globals-init-only/"+g.Pkg[strings.LastIndex(g.Pkg, "/")+1:]+"."+name, "globals-init-only",
+				fmt.Sprintf("package variable %s.%s is assigned only by its package initialiser and only read elsewhere (it is relied on as a constant by: %s)", pkg.Pkg.Name(), name, g.Clause.Text),
+				g.Clause.Props, problems))
+		}
+	}
+	return out
+}
+
+func addrRoot(v ssa.Value) ssa.Value {
+	for {
+		switch x := v.(type) {
+		case *ssa.FieldAddr:
+			v = x.X
+			continue
+		case *ssa.IndexAddr:
+			v = x.X
+			continue
+		}
+		return v
+	}
+}
+
+// readOnlyUse: instruction ref uses value v only to read from it.
+func readOnlyUse(ref ssa.Instruction, v ssa.Value) bool {
+	switch x := ref.(type) {
+	case *ssa.DebugRef:
+		return true
+	case *ssa.Lookup:
+		return x.X == v
+	case *ssa.Range:
+		return true
+	case *ssa.BinOp:
+		return true // comparison
+	case *ssa.Call:
+		if b, ok := x.Call.Value.(*ssa.Builtin); ok && (b.Name() == "len" || b.Name() == "cap") {
+			return true
+		}
+		// passing a non-reference value (duration, int, *time.Location used read-only by package time) is fine
+		switch v.Type().Underlying().(type) {
+		case *types.Basic:
+			return true
+		case *types.Pointer:
+			if callee := x.Call.StaticCallee(); callee != nil && callee.Pkg != nil && callee.Pkg.Pkg.Path() == "time" {
+				return true
+			}
+		}
+		return false
+	case *ssa.Convert, *ssa.ChangeType:
+		_, isBasic := v.Type().Underlying().(*types.Basic)
+		return isBasic
+	case *ssa.UnOp:
+		_, isBasic := v.Type().Underlying().(*types.Basic)
+		return isBasic
+	case *ssa.Store:
+		// storing a basic value elsewhere copies it
+		if x.Val == v {
+			_, isBasic := v.Type().Underlying().(*types.Basic)
+			return isBasic
+		}
+		return false
+	case *ssa.Return, *ssa.Phi, *ssa.MakeInterface:
+		_, isBasic := v.Type().Underlying().(*types.Basic)
+		return isBasic
+	}
+	return false
+}
+
+// encapsulation of owned fields: the slice held in the field is created,
+// resliced and appended to only inside methods of the declaring package, and
+// neither the slice nor a pointer into it leaves those methods.
+func (e *Engine) encapsulated(prop string) []*Oblig {
+	var out []*Oblig
+	var keys []string
+	for k := range e.lib.Types {
+		keys = append(keys, k)
+	}
+	sort.Strings(keys)
+	for _, tk := range keys {
+		ts := e.lib.Types[tk]
+		for _, fname := range ts.Owned {
+			t := e.typeByKey(tk)
+			if t == nil {
+				continue
+			}
+			st, ok := t.Underlying().(*types.Struct)
+			if !ok {
+				continue
+			}
+			fidx := -1
+			for i := 0; i < st.NumFields(); i++ {
+				if st.Field(i).Name() == fname {
+					fidx = i
+				}
+			}
+			var problems []string
+			for _, fn := range e.repoFunctions() {
+				for _, b := range fn.Blocks {
+					for _, ins := range b.Instrs {
+						fa, ok := ins.(*ssa.FieldAddr)
+						if !ok || fa.Field != fidx || !types.Identical(derefType(fa.X.Type()), t) {
+							continue
+						}
+						samePkg := fn.Pkg != nil && fn.Pkg.Pkg.Path() == tk[:strings.LastIndex(tk, ".")]
+						if !samePkg {
+							problems = append(problems, fmt.Sprintf("%s: field %s accessed outside its package", e.pos(ins), fname))
+							continue
+						}
+						for _, ref := range *fa.Referrers() {
+							switch r := ref.(type) {
+							case *ssa.DebugRef:
+							case *ssa.Store:
+								if r.Addr != fa {
+									problems = append(problems, fmt.Sprintf("%s: address of owned field stored", e.pos(ref)))
+								} else if !ownedSource(r.Val, fidx, t) {
+									problems = append(problems, fmt.Sprintf("%s: owned field %s assigned a slice that may be shared with the outside", e.pos(ref), fname))
+								}
+							case *ssa.UnOp:
+								for _, use := range *r.Referrers() {
+									if !ownedUse(use, r, fidx, t) {
+										problems = append(problems, fmt.Sprintf("%s: slice held in owned field %s escapes (%T)", e.pos(use), fname, use))
+									}
+								}
+							default:
+								problems = append(problems, fmt.Sprintf("%s: address of owned field %s escapes (%T)", e.pos(ref), fname, ref))
+							}
+						}
+					}
+				}
+			}
+			// composite literals / whole-struct stores of the type outside its package could smuggle a slice in
+			out = append(out, structOblig("encapsulated/"+tk[strings.LastIndex(tk, "/")+1:]+"."+fname, "encapsulated",
+				fmt.Sprintf("the backing array of %s.%s is private: created, resliced and appended to only by its package, never returned, stored elsewhere or passed on", tk, fname),
+				nil, problems))
+		}
+	}
+	return out
+}
+
+// ownedSource: value stored into an owned field derives from the field itself or is freshly allocated.
+func ownedSource(v ssa.Value, fidx int, t types.Type) bool {
+	switch x := v.(type) {
+	case *ssa.Const:
+		return x.Value == nil
+	case *ssa.MakeSlice:
+		return true
+	case *ssa.Slice:
+		if _, ok := x.X.(*ssa.Alloc); ok {
+			return true
+		}
+		return ownedSource(x.X, fidx, t)
+	case *ssa.UnOp:
+		if fa, ok := x.X.(*ssa.FieldAddr); ok && fa.Field == fidx && types.Identical(derefType(fa.X.Type()), t) {
+			return true
+		}
+	case *ssa.Call:
+		if b, ok := x.Call.Value.(*ssa.Builtin); ok && b.Name() == "append" {
+			return ownedSource(x.Call.Args[0], fidx, t)
+		}
+	}
+	return false
+}
+
+func ownedUse(use ssa.Instruction, v ssa.Value, fidx int, t types.Type) bool {
+	switch x := use.(type) {
+	case *ssa.DebugRef:
+		return true
+	case *ssa.BinOp:
+		return true
+	case *ssa.IndexAddr:
+		// element pointer: only loaded from / stored to
+		for _, r := range *x.Referrers() {
+			switch rr := r.(type) {
+			case *ssa.UnOp, *ssa.DebugRef:
+			case *ssa.Store:
+				if rr.Addr != x {
+					return false
+				}
+			default:
+				return false
+			}
+		}
+		return true
+	case *ssa.Slice:
+		for _, r := range *x.Referrers() {
+			switch rr := r.(type) {
+			case *ssa.DebugRef:
+			case *ssa.Store:
+				fa, ok := rr.Addr.(*ssa.FieldAddr)
+				if !ok || fa.Field != fidx || !types.Identical(derefType(fa.X.Type()), t) {
+					return false
+				}
+			default:
+				return false
+			}
+		}
+		return true
+	case *ssa.Call:
+		if b, ok := x.Call.Value.(*ssa.Builtin); ok {
+			switch b.Name() {
+			case "len", "cap":
+				return true
+			case "append":
+				if x.Call.Args[0] != v {
+					return false
+				}
+				for _, r := range *x.Referrers() {
+					switch rr := r.(type) {
+					case *ssa.DebugRef:
+					case *ssa.Store:
+						fa, ok := rr.Addr.(*ssa.FieldAddr)
+						if !ok || fa.Field != fidx || !types.Identical(derefType(fa.X.Type()), t) {
+							return false
+						}
+					default:
+						return false
+					}
+				}
+				return true
+			}
+		}
+	}
+	return false
+}
 
 func (e *Engine) structuralObligations(prop string) []*Oblig {
-	return nil
+	var out []*Oblig
+	out = append(out, e.globalsInitOnly(prop)...)
+	switch prop {
+	case "C02", "C03", "C12", "C07", "C09", "C10", "C13", "C19":
+		out = append(out, e.encapsulated(prop)...)
+	}
+	out = append(out, e.pipelineObligations(prop)...)
+	return out
 }
